@@ -174,6 +174,7 @@ class Unit:
         desugars = {}    # loop ordinal -> iterator name (R11)
         endloops = {}    # loop ordinal -> ghost lines placed at the end of the loop body (R3)
         innerspecs = {}  # nested fn name -> contract lines
+        atend = []       # ghost lines placed at the end of the function body (R3)
         cur = None
         for l in block:
             s = l.strip()
@@ -186,6 +187,8 @@ class Unit:
                 mode, anchor = s[3:].split(' ', 1)
                 cur = []
                 inserts.append((mode, anchor.strip(), cur))
+            elif s.startswith('//@atend'):
+                cur = atend
             elif s.startswith('//@innerspec '):
                 # contract of a function nested in this function's body (spliced into the nested signature, R1)
                 cur = innerspecs.setdefault(s.split()[1], [])
@@ -240,7 +243,7 @@ class Unit:
         if kv.get('attr'):
             pre_attr += '#[%s]\n' % kv['attr'].replace('~', ' ')
         if mode == 'external_body':
-            loop_specs, inserts, desugars, endloops, innerspecs = {}, [], {}, {}, {}      # body is dropped (R8)
+            loop_specs, inserts, desugars, endloops, innerspecs, atend = {}, [], {}, {}, {}, []      # body is dropped (R8)
         # loops
         loops = src.loops(bopen, bclose)
         # R11: `for PAT in EXPR { BODY }` is spelled out as the language defines it (Rust reference,
@@ -287,6 +290,8 @@ class Unit:
                 ins.append((im[1], ')', 'inner_ret_close'))
             ins.append((inner['body_open'], '\n' + '\n'.join(lines_) + '\n', 'inner_sig'))
             self.rewrites.append(dict(rule='R1', fn='%s::%s' % (name, iname), result='r'))
+        if atend:
+            ins.append((bclose, '\n' + '\n'.join(atend) + '\n', 'atend'))
         for k, lines_ in endloops.items():
             if k < 1 or k > len(loops):
                 raise Lost('fn %s: loop #%d not found (%d loops)' % (name, k, len(loops)))
